@@ -660,9 +660,17 @@ func (ex *executor) binop(st *state, op token.Token, x, y Value, xt, yt, rt type
 					e = Eq(y.C[0], IntC(0))
 				}
 			case *types.Interface:
-				if len(y.C) == 1 {
+				isNilC := func(v Value) bool {
+					for _, c := range v.C {
+						if !c.IsConst() || c.val.Sign() != 0 {
+							return false
+						}
+					}
+					return true
+				}
+				if len(y.C) == 1 || isNilC(y) {
 					e = Eq(x.C[0], IntC(0))
-				} else if len(x.C) == 1 {
+				} else if len(x.C) == 1 || isNilC(x) {
 					e = Eq(y.C[0], IntC(0))
 				} else {
 					e = valuesEq(x, y)
@@ -700,6 +708,9 @@ func (ex *executor) convert(st *state, x Value, from, to types.Type, pos token.P
 		return Value{T: to, C: []*Term{Raw(op, FPSort, x.C[0])}}
 	case isFloat(from) && isInteger(to):
 		w, sg := intWidth(to.Underlying().(*types.Basic))
+		if q, ok := ex.floorDivLemma(st, x.C[0], w); ok {
+			return Value{T: to, C: []*Term{q}}
+		}
 		op := fmt.Sprintf("(_ fp.to_ubv %d) RTZ", w)
 		if sg {
 			op = fmt.Sprintf("(_ fp.to_sbv %d) RTZ", w)
@@ -1114,4 +1125,32 @@ func (ex *executor) execNext(st *state, t *ssa.Next) {
 func isBlankTuple(t types.Type) bool {
 	b, ok := t.(*types.Basic)
 	return ok && b.Kind() == types.Invalid
+}
+
+// floorDivLemma: int(math.Floor(float64(a)/float64(b))) for unsigned 32-bit a, b with b != 0
+// equals a / b.  (Trusted arithmetic lemma: the quotient of two integers below 2^32 is at
+// least 1/b >= 2^-32 away from the next integer while the rounding error of the double
+// division is below 2^-21/b; see DESIGN.md.)  SMT solvers do not decide the FP formulation.
+func (ex *executor) floorDivLemma(st *state, f *Term, w int) (*Term, bool) {
+	if f.op != "fp.roundToIntegral RTN" && f.op != "fp.roundToIntegral RTZ" {
+		return nil, false
+	}
+	d := f.args[0]
+	if d.op != "fp.div RNE" {
+		return nil, false
+	}
+	a, b := d.args[0], d.args[1]
+	if a.op != "(_ to_fp_unsigned 11 53) RNE" || b.op != "(_ to_fp_unsigned 11 53) RNE" {
+		return nil, false
+	}
+	ai, bi := a.args[0], b.args[0]
+	if ai.sort.W > 32 || bi.sort.W > 32 {
+		return nil, false
+	}
+	ai, bi = Resize(ai, 32, false), Resize(bi, 32, false)
+	ex.root().abstracted["trusted lemma: floor(float64(a)/float64(b)) == a/b for uint32 a, b != 0"]++
+	q := BVBin("bvudiv", ai, bi)
+	nz := Not(Eq(bi, BVI(0, 32)))
+	unk := FreshVar("fpdiv0", BV(w))
+	return Ite(nz, Resize(q, w, false), unk), true
 }
